@@ -247,6 +247,11 @@ def directed_scripts(variant):
         "cfg grace=0 soft=4 hard=8 tcap=2", "sink 0 lvl=0", "sink 1 lvl=0", "logger 0 sinks=0 lvl=0", "logger 1 sinks=0,1 lvl=0", "start",
         "T 1 start", "T 2 start", "L 1 0 4 10", "L 2 0 4 10", "RB 1 0", "P", "R 1", "P", "R 1", "P", "R 1", "P", "R 1", "Q",
         "CL 1 0 1", "L 1 0 4 10", "P", "P", "DS 0", "RL 2 1", "P", "P", "P", "Q"]))
+    # F12: a statement logged through a logger that is removed (asynchronously) before flush_log() is called on another
+    # logger; the user keeps the sink, so only the backend's flush can make the statement readable
+    out.append(("dir_f12_removed_logger_flush", [
+        "cfg grace=0 soft=4 hard=8 tcap=2", "sink 0 lvl=0", "sink 1 lvl=0", "logger 0 sinks=0 lvl=0", "logger 1 sinks=1 lvl=0", "start",
+        "T 1 start", "L 1 0 4 10", "RL 1 0", "F 1 1", "P", "P", "R 1", "P", "P", "Q", "X"]))
     # backtrace: wrap, flush by level, explicit flush
     out.append(("dir_backtrace", [
         "cfg grace=0 soft=4 hard=8 tcap=2", "sink 0 lvl=0", "logger 0 sinks=0 lvl=0", "start", "T 1 start",
@@ -397,6 +402,8 @@ def oracles(lines):
         op = w[0]
         if res in ("noop", "bad-op"):
             return
+        if op not in ("QC", "SH") and len(w) > 1 and w[1].isdigit():
+            last_cap.pop(int(w[1]), None)   # any other call of that thread may have grown its queue since the capacity was read
         if op == "QC":
             m = re.match(r"cap=(\d+)", res)
             if m:
@@ -420,6 +427,7 @@ def oracles(lines):
                 return
             i = int(m.group(1))
             a, g = int(w[1]), int(w[2])
+            last_cap.pop(a, None)   # the call may have grown the queue: a capacity read before it says nothing about a later shrink
             lvl = 9 if op == "LB" else 4 if op == "LN" else int(w[3])
             if op == "LB":
                 backtrace_used = True
@@ -501,6 +509,7 @@ def oracles(lines):
             order_idx[0] += 1
         elif st["op"] in ("LS", "LB", "LN") and "bytes=" not in res and "ev=1" in res:
             st["ret"] = "unknown"   # unbounded dropping build: a macro without return value, outcome not observable here
+            st["enq"] = t_now       # if it was enqueued at all, it was now (C05 premise)
             unknown_outcomes[0] += 1
             live_logged.add(st["actor"])   # the reservation was attempted: the context exists
         elif st["op"] in ("LS", "LB", "LN") and res.endswith("bytes=0") and "ev=1" in res:
@@ -510,7 +519,9 @@ def oracles(lines):
 
     def check_flush_done(a):
         fw = flush_wait.pop(a, None)
-        if not fw or has_faults or dyn_cfg_changes or removed_loggers:
+        # (statements logged through a logger that was removed before the flush are included: its sinks are flushed
+        #  as long as the backend has not erased it, and it is erased only after an idle pass, which flushes first — F12)
+        if not fw or has_faults or dyn_cfg_changes:
             return
         for i in fw["need"]:
             st = stmts[i]
